@@ -16,9 +16,32 @@ import (
 func (c *Ctx) rulePosCompare() {
 	P := c.P
 	nCmp, nLine := 0, 0
-	allowedPkg := func(fn *ssa.Function) bool {
+	// allowed: the scope/rendering code itself, and helpers that are only ever called from it
+	var allowedPkg func(fn *ssa.Function) bool
+	busy := map[*ssa.Function]bool{}
+	allowedPkg = func(fn *ssa.Function) bool {
+		for fn.Parent() != nil {
+			fn = fn.Parent()
+		}
 		pp := strings.TrimPrefix(funcPkgPath(fn), modulePath+"/src/")
-		return pp == "ignore" || pp == "reporting" || strings.Contains(FuncName(fn), "util.IgnoreSet)")
+		if pp == "ignore" || pp == "reporting" || strings.Contains(FuncName(fn), "util.IgnoreSet)") {
+			return true
+		}
+		if busy[fn] {
+			return true
+		}
+		busy[fn] = true
+		defer delete(busy, fn)
+		callers := P.Callers(fn)
+		if len(callers) == 0 || fn.Object() == nil || fn.Object().Exported() {
+			return false
+		}
+		for _, cs := range callers {
+			if !allowedPkg(cs.Parent()) {
+				return false
+			}
+		}
+		return true
 	}
 	for _, fn := range P.ModFuncs {
 		allInstrs(fn, func(b *ssa.BasicBlock, ins ssa.Instruction) {
